@@ -847,9 +847,13 @@ def Array(
         def _decode_all(cls, stream):
             _array = []
             while True:
+                _start = stream.tell()
                 try:
                     _array.append(cls.element_type.decode(stream))
-                except BufferEmptyError:
+                except BufferEmptyError as err:
+                    if stream.tell() != _start:
+                        # the buffer ended part-way through an element, not between elements
+                        raise DataError("Buffer ended inside an array element") from err
                     break
             return _array
 
